@@ -1,10 +1,106 @@
 import Driver.JsonUtil
+import DSV.EVM.Codec
+import DSV.EVM.CodecDecode
 open Lean
 namespace Driver
-open DSV
+open DSV DSV.LLO DSV.EVM
+
+/-! ### JSON of the C12 ops
+
+* report : `{"channelID":"n","validAfter":"n","obsTs":"n","specimen":bool,"values":[SV|null,…]}`
+* parsed opts (field `opts`; the harness gives the real code the JSON text in `optsText` instead):
+  * premium     `{"baseUSDFee":Dec,"window":"n","feedID":"hex","multiplier":"i"|null}`
+  * unpacked    `{"baseUSDFee":Dec,"window":"n","feedID":"hex","abi":[[{"type":"…","mult":"i"|null},…],…]}`
+  * streamlined `{"feedID":"hex"|null,"abi":[…]}`
+* result of an encode op: `{"ok":{"b":"hex","d":<fields read back by the layout reader>|null}}`
+-/
+
+def asOptInt (j : Json) : P (Option Int) :=
+  match j with
+  | .null => pure none
+  | _ => some <$> asInt j
+
+def asEnc1 (j : Json) : P Enc1 := do
+  pure { ty := ← getStr j "type", mult := ← asOptInt (fldD j "mult") }
+
+def asABIEnc (j : Json) : P ABIEnc := do
+  pure { encoders := ← (← asArr j).mapM asEnc1 }
+
+def asABI (j : Json) : P (List ABIEnc) := do (← asArr j).mapM asABIEnc
+
+def asEvmReport (j : Json) : P Report := do
+  pure { seqNr := 0, channelID := ← getNat j "channelID", validAfter := ← getNat j "validAfter",
+         obsTs := ← getNat j "obsTs", values := ← (← getArr j "values").mapM asOptSV,
+         specimen := (fldD j "specimen") == Json.bool true }
+
+def asPremiumOpts (j : Json) : P PremiumOpts := do
+  pure { baseUSDFee := ← fld j "baseUSDFee" >>= asDec, window := ← getNat j "window",
+         feedID := ← getBytes j "feedID", multiplier := ← asOptInt (fldD j "multiplier") }
+
+def asUnpackedOpts (j : Json) : P UnpackedOpts := do
+  pure { baseUSDFee := ← fld j "baseUSDFee" >>= asDec, window := ← getNat j "window",
+         feedID := ← getBytes j "feedID", abi := ← asABI (fldD j "abi") }
+
+def asStreamlinedOpts (j : Json) : P StreamlinedOpts := do
+  let f := fldD j "feedID"
+  pure { feedID := ← (if f.isNull then pure none else some <$> asBytes f), abi := ← asABI (fldD j "abi") }
+
+def jV3Decoded (d : V3Decoded) : Json :=
+  Json.mkObj [("feedID", jBytes d.feedID), ("validFrom", jNat d.validFrom), ("timestamp", jNat d.timestamp),
+    ("nativeFee", jNat d.nativeFee), ("linkFee", jNat d.linkFee), ("expiresAt", jNat d.expiresAt),
+    ("benchmark", jInt d.benchmark), ("bid", jInt d.bid), ("ask", jInt d.ask)]
+
+def jUnpackedDecoded (d : UnpackedDecoded) : Json :=
+  Json.mkObj [("feedID", jBytes d.feedID), ("validFrom", jNat d.validFrom), ("timestamp", jNat d.timestamp),
+    ("nativeFee", jNat d.nativeFee), ("linkFee", jNat d.linkFee), ("expiresAt", jNat d.expiresAt),
+    ("values", .arr (d.values.map (fun vs => Json.arr (vs.map jInt).toArray)).toArray)]
+
+def jOptInt : Option Int → Json
+  | none => .null
+  | some i => jInt i
+
+def jStreamlinedDecoded (d : StreamlinedDecoded) : Json :=
+  Json.mkObj [("feedID", match d.feedID with | none => .null | some b => jBytes b),
+    ("format", match d.formatChannel with | none => .null | some p => jNat p.1),
+    ("channelID", match d.formatChannel with | none => .null | some p => jNat p.2),
+    ("validAfter", jNat d.validAfter),
+    ("values", .arr (d.values.map (fun vs => Json.arr (vs.map jOptInt).toArray)).toArray)]
+
+def jEncoded {δ} (dec : Bytes → Option δ) (jd : δ → Json) (b : Bytes) : Json :=
+  Json.mkObj [("b", jBytes b), ("d", match dec b with | none => .null | some d => jd d)]
 
 /-- op handlers of this area; return `none` for op names that are not handled here -/
 def handleEvmCodec (op : String) (j : Json) : Option (P Json) :=
   match op with
+  | "evm.encode.premium" => some do
+    let r ← fld j "report" >>= asEvmReport
+    let o ← fld j "opts" >>= asPremiumOpts
+    pure (jRes (jEncoded abiDecodeV3 jV3Decoded) (encodePremium r o))
+  | "evm.encode.unpacked" => some do
+    let r ← fld j "report" >>= asEvmReport
+    let o ← fld j "opts" >>= asUnpackedOpts
+    pure (jRes (jEncoded (abiDecodeUnpacked (unpackedLayout o.abi)) jUnpackedDecoded) (encodeUnpacked r o))
+  | "evm.encode.streamlined" => some do
+    let r ← fld j "report" >>= asEvmReport
+    let o ← fld j "opts" >>= asStreamlinedOpts
+    let format ← getNat j "format"
+    pure (jRes (jEncoded (abiDecodeStreamlined o.feedID.isSome (streamlinedLayout o.abi)) jStreamlinedDecoded)
+      (encodeStreamlined r format o))
+  | "evm.verify.premium" => some do
+    let o ← fld j "opts" >>= asPremiumOpts
+    pure (jRes (fun _ => Json.bool true) (verifyPremium o (← getNat j "nStreams")))
+  | "evm.verify.unpacked" => some do
+    let o ← fld j "opts" >>= asUnpackedOpts
+    pure (jRes (fun _ => Json.bool true) (verifyUnpacked o (← getNat j "nStreams")))
+  | "evm.verify.streamlined" => some do
+    let o ← fld j "opts" >>= asStreamlinedOpts
+    pure (jRes (fun _ => Json.bool true) (verifyStreamlined o (← getNat j "nStreams")))
+  | "evm.fee" => some do
+    let price ← fld j "price" >>= asDec
+    let base ← fld j "base" >>= asDec
+    pure (jRes jInt (calculateFee price base))
+  | "evm.timestamps" => some do
+    let r ← fld j "report" >>= asEvmReport
+    pure (jRes (fun p => Json.mkObj [("vas", jNat p.1), ("ots", jNat p.2)]) (extractTimestamps r))
   | _ => none
 end Driver
